@@ -608,3 +608,23 @@ def shrink_list(xs, test, minlen=1):
                 changed = True
                 break
     return xs
+
+
+def generic_replay(mod, prop, tier, payload):
+    """`./check Cxx --replay <file>`: re-run the check with the seed and tier recorded in the replay
+    file (every random choice derives from that seed, so the failing case is regenerated), and
+    report whether the recorded failure key / broken tie is still present."""
+    seed = int(payload.get("seed", 20260930))
+    tier = payload.get("tier", tier)
+    want = payload.get("key")
+    print(f"[{prop}] replaying {payload.get('kind')} key={want} seed={seed} tier={tier}")
+    if payload.get("case") is not None:
+        print("  case:", json.dumps(payload["case"], default=str)[:600])
+    if payload.get("detail") is not None:
+        print("  detail:", json.dumps(payload["detail"], default=str)[:400])
+    ctx = Ctx(prop, tier, seed)
+    rc = mod.check(ctx)
+    keys = {f.get("key") for f in ctx.failures}
+    if want is not None:
+        print(f"[{prop}] replay: recorded failure key {'STILL PRESENT' if want in keys else 'no longer reproduced'}")
+    return rc
